@@ -275,11 +275,15 @@ impl AsRange for DicomTime {
             },
         );
 
-        NaiveTime::from_hms_micro_opt((*h).into(), (*m).into(), (*s).into(), f).context(
+        // a leap second (60) is represented in chrono as second 59
+        // with a microsecond value above 999_999
+        let (s, f) = if *s == 60 { (59, f + 1_000_000) } else { (*s, f) };
+
+        NaiveTime::from_hms_micro_opt((*h).into(), (*m).into(), s.into(), f).context(
             InvalidTimeMicroSnafu {
                 h: *h as u32,
                 m: *m as u32,
-                s: *s as u32,
+                s: s as u32,
                 f,
             },
         )
@@ -296,11 +300,15 @@ impl AsRange for DicomTime {
                 }
             },
         );
-        NaiveTime::from_hms_micro_opt((*h).into(), (*m).into(), (*s).into(), f).context(
+        // a leap second (60) is represented in chrono as second 59
+        // with a microsecond value above 999_999
+        let (s, f) = if *s == 60 { (59, f + 1_000_000) } else { (*s, f) };
+
+        NaiveTime::from_hms_micro_opt((*h).into(), (*m).into(), s.into(), f).context(
             InvalidTimeMicroSnafu {
                 h: *h as u32,
                 m: *m as u32,
-                s: *s as u32,
+                s: s as u32,
                 f,
             },
         )
